@@ -18,6 +18,10 @@ CLAIMED = {
    text="Kernel-checked theorems over a faithful model of vorbis_bitrate_addblock's hard-limit logic (min/max loops, truncate, pad, reservoir update) for every block sequence, every 15-blob size vector and every floater choice: reservoir stays in [0, reservoir_bits]; over every contiguous run emitted bits exceed the maximum budgets by at most the reservoir, and fall short of the minimum budgets by at most the reservoir; plus the witness that the side condition (both limits => reservoir >= 7 bits) is necessary. Tied to lib/bitrate.c by replaying every block of direct-mode (synthetic blob vectors through the real vorbis_bitrate_addblock) and real managed encodes through the model: choice, packet bytes and reservoir must agree exactly.",
    note="Budgets are the manager's own quantised per-block targets; drift against the configured rate (F9) and reservoirs < 7 bits with both limits (F12) are genuine, recorded known findings. The average floater (double arithmetic) is an oracle parameter (only rint(avgfloat) enters). Trusted: Lean kernel, harness reading private structs through codec_internal.h.",
    tech="Lean 4 proof (invariant by induction over block sequences) + differential replay of the real rate manager"),
+ "C04": dict(cat="proof", ref="§8 C04",
+   text="Kernel-checked: for every block-size pair, every N >= 0 and every packet sequence of the encoder's shape (predicate Coherent: any short/long mix, first packet at 0, last packet = granule N + EOS) and every pattern of granule positions hidden by Ogg paging, the decoder model delivers exactly N samples and nothing from the first packet (C04_decode_total, C04_first_zero); encoder single-step facts (EOS block carries the clamped granule; over-submission refused). Encoder and decoder bookkeeping models are replayed call-by-call against the real vorbis_analysis_buffer/wrote/blockout and vorbis_synthesis_blockin over N in {0,1,...,10^6}, all partitions, 24 configurations; the very predicate Coherent is evaluated (decide) on every real packet trace.",
+   note="PARTIAL: 'every drained encoder run is Coherent' is not yet a theorem (C04_main_partial): it is validated on every generated trace by evaluating the theorem's hypothesis on the real encoder's packets. _ve_envelope_search is an oracle parameter. vorbisfile's ov_pcm_total is checked by the oracle here and modelled under C09. Trusted: Lean kernel, harness, extract.py.",
+   tech="Lean 4 proof (induction over packet sequences, decoder count model) + call-by-call differential replay of encoder/decoder bookkeeping"),
 }
 
 NA_REASON = "not yet built in this round: model/theorems for this property are not in the tree yet (see DESIGN.md §8 for the plan)"
